@@ -157,6 +157,29 @@ Theorem C15_arrival_store_eviction_refuted :
 Proof. exact: store_evicted_run. Qed.
 Print Assumptions C15_arrival_store_eviction_refuted.
 
+(* ======== verification does not depend on history ========
+   In the model VerifySig is a function of (key, message, signature).  Whatever the round has seen and
+   verified before (any state, any earlier block): a registered sender's share over another message x,
+   relabelled with the data hash the round expects, leaves the round unchanged. *)
+Theorem C15_stale_share_rejected :
+  forall (F : fieldType) (M : eqType) (H : M -> F) (sel : seq (F * F) -> seq nat)
+         (e : @env F M) (st : @rstate F) (m : @msg F M) (sk : F) (x : M),
+  lookup eq_op (m_sender m) (e_members e) = Some sk -> m_sig m = PVal (sk * H x) -> H x != H (m_dh m) ->
+  (@r1_update F M (fops F) eq_op eq_op (fun y => y == 0) (fun y => y == 0) eq_op H sel true e st m).1 = st.
+Proof. move=> F M H sel e st m sk x; exact: stale_share_rejected. Qed.
+Print Assumptions C15_stale_share_rejected.
+
+(* A verifier that accepts a remembered (key, signature) pair without looking at the message admits
+   member 2's share for an earlier block as a piece for this one: garbage is recovered and the party
+   ends in error (Z mod 101); the node's verification rejects it and the block finalises. *)
+Theorem C15_remembering_verifier_refuted :
+  snd (zparty_run rq rhs true renv [:: stale2; honest3; honest2]) =
+    [:: (OBadSign, TNone); (OAdded, TNone); (ORecovered, TDone)] /\
+  g_map (st_g (p_st (zfinal_with veq_remembering [:: stale2; honest3; honest2]))) = [:: (2, 44); (3, 98)]%ZZ /\
+  p_phase (zfinal_with veq_remembering [:: stale2; honest3; honest2]) = Closed.
+Proof. exact: stale_share_run. Qed.
+Print Assumptions C15_remembering_verifier_refuted.
+
 (* ======== two groups: the sign-key lookup is a function of (group, member) ========
    The verifier belongs to groups A and B and runs a signing party for a block of each; every verify
    message concerns one of the two blocks.  (Stated for the model over any carrier, not only fields.) *)
